@@ -1,6 +1,7 @@
 import Driver.Proto
 import XmlRsModel.Chars
 import XmlRsModel.Names
+import XmlRsModel.CharData
 /-! Operations of the model driver. -/
 namespace Driver
 open XmlRs
@@ -63,9 +64,69 @@ def nameok (kind : String) (s : Str) : String :=
   | "lax-ncname" | "lax-qname" | "lax-element" | "lax-attr" => "0"
   | _ => "bad-op"
 
+def parseNum (s : String) : Nat := if s == "M" then 18446744073709551615 else s.toNat!
+
+/-- `name:a:b:rest` split at most `n` times (the last field may contain ':') -/
+def splitN (s : Str) (n : Nat) : List Str :=
+  match n with
+  | 0 => [s]
+  | n+1 => match spanP (· != ':') s with
+      | (a, _ :: r) => a :: splitN r n
+      | (a, []) => [a]
+
+def parseCdOp (s : Str) : Option CharData.Op :=
+  let str := String.ofList
+  match splitN s 3 with
+  | [n] => if str n == "len" then some .len else if str n == "app" then some (.app []) else
+           if str n == "set" then some (.set []) else none
+  | [n, a] => match str n with
+      | "app" => some (.app a) | "set" => some (.set a) | "split" => some (.split (parseNum (str a)))
+      | "ins" => some (.ins (parseNum (str a)) [])
+      | _ => none
+  | [n, a, b] => match str n with
+      | "sub" => some (.sub (parseNum (str a)) (parseNum (str b)))
+      | "del" => some (.del (parseNum (str a)) (parseNum (str b)))
+      | "ins" => some (.ins (parseNum (str a)) b)
+      | "app" => some (.app (a ++ ':' :: b)) | "set" => some (.set (a ++ ':' :: b))
+      | "rep" => some (.rep (parseNum (str a)) (parseNum (str b)) [])
+      | _ => none
+  | [n, a, b, c] => match str n with
+      | "rep" => some (.rep (parseNum (str a)) (parseNum (str b)) c)
+      | "ins" => some (.ins (parseNum (str a)) (b ++ ':' :: c))
+      | "app" => some (.app (a ++ ':' :: b ++ ':' :: c)) | "set" => some (.set (a ++ ':' :: b ++ ':' :: c))
+      | _ => none
+  | _ => none
+
+def cdSupported (kind : String) : CharData.Op → Bool
+  | .len => true
+  | .sub _ _ => true
+  | .split _ => kind == "text" || kind == "cdata"
+  | _ => kind != "merged"
+
+def chardata (kind : String) (content : Str) (ops : List Str) : String :=
+  let rec go (s : Str) : List Str → List String
+    | [] => []
+    | o :: os =>
+      match parseCdOp o with
+      | none => ["bad-op"]
+      | some op =>
+        if !cdSupported kind op then
+          s!"unsupported data={encode s},len={s.length}" :: go s os
+        else
+          let (s', out) := CharData.step s op
+          let r := match out with
+            | .okNat n => s!"ok={n}"
+            | .okStr t => s!"ok={encode t}"
+            | .okUnit => "ok"
+            | .okSplit l r => s!"ok={encode l},{encode r},adj=1"
+            | .indexSize => "err:index"
+          s!"{r} data={encode s'},len={s'.length}" :: go s' os
+  " | ".intercalate (go content ops)
+
 def dispatch (op : String) (args : List Str) : String :=
   match op, args with
   | "nameok", [k, s] => nameok (String.ofList k) s
+  | "chardata", k :: c :: ops => chardata (String.ofList k) c ops
   | _, _ => "bad-op"
 
 end Driver
